@@ -307,7 +307,9 @@ pub fn exec(c: &Case) -> Outcome {
     // let the racing threads run a little
     std::thread::sleep(Duration::from_micros(c.delay_us as u64 % 3000));
     if c.stalled {
-        wire.set_budget(Some(0));
+        // a few bytes of budget are left: the racing threads' next frame is then cut by a short
+        // write, so the backlog that the close meets begins in the middle of a frame
+        wire.set_budget(Some((c.salt >> 20) as usize % 48));
     }
     let stalled = c.stalled;
     let wire2 = wire.clone();
@@ -514,7 +516,7 @@ pub fn exec(c: &Case) -> Outcome {
     o
 }
 
-fn strat(_t: Tier) -> BoxedStrategy<Case> {
+pub fn strat(_t: Tier) -> BoxedStrategy<Case> {
     let follow = prop_oneof![
         8 => Just(FollowUp::CloseOk),
         8 => Just(FollowUp::CloseOkThenEof),
